@@ -39,18 +39,25 @@ before = state()
 with set_random_seed(7):
     a = np.random.random(3); np.random.normal(size=3)
 ok_normal = state() == before
+raised = False
 try:
     with set_random_seed(7):
         b = np.random.random(3); np.random.normal(size=3); raise RuntimeError('x')
 except RuntimeError:
-    pass
+    raised = True
 ok_exc = state() == before
 with set_random_seed(None):
     pass
 ok_none = state() == before
-VIOLATED = not (ok_normal and ok_exc and ok_none and np.array_equal(a, b))
-DETAIL = f'restored after normal exit: {ok_normal}, after exception: {ok_exc}, untouched without seed: {ok_none}, same draws: {np.array_equal(a, b)}'
-""", "expect": "the global generator is restored on every exit; same seed, same draws"}
+raised_none = False
+try:
+    with set_random_seed(None):
+        raise KeyError('y')
+except KeyError:
+    raised_none = True
+VIOLATED = not (ok_normal and ok_exc and ok_none and raised and raised_none and np.array_equal(a, b))
+DETAIL = f'restored after normal exit: {ok_normal}, after exception: {ok_exc}, untouched without seed: {ok_none}, same draws: {np.array_equal(a, b)}, exception of the block leaves the context: {raised} (seed) {raised_none} (no seed)'
+""", "expect": "the global generator is restored on every exit; same seed, same draws; an exception raised in the block leaves the context"}
 
 
 @unit("C04", "cm.restore")
@@ -102,9 +109,12 @@ def cm_restore(u: Unit):
                 # without a seed nothing is saved or restored: the generator is exactly what the body left
                 u.oblige(p, f"cm.untouched[{tag},{p.kind}]", z3.And(seen["rng_at_body"] == z3.Int("RNG0"), zb(not any(e[0] in ("rng_seed", "rng_set_state") for e in p.st.events))),
                          {}, SEED_REPLAY, fnq=fi.qualname)
+            e = p.st.ghost.get("BODY_EXC")
             if p.kind == "raise":
-                e = p.st.ghost.get("BODY_EXC")
                 u.oblige(p, f"cm.transparent[{tag}]", bool(isinstance(p.value, VSym) and e is not None and z3.eq(p.value.t, e.t)), {}, SEED_REPLAY, fnq=fi.qualname)
+            else:
+                # a block that raised never ends in a normal exit of the with-statement (C09: nothing between the model and the caller swallows it)
+                u.oblige(p, f"cm.block_exception_not_swallowed[{tag}]", e is None, {"block": "raised", "with-statement": "completed normally"}, SEED_REPLAY, fnq=fi.qualname)
         u.cover(f"cm.cover[{with_seed}]", paths, lambda p: p.kind == "return")
         u.cover(f"cm.cover_exc[{with_seed}]", paths, lambda p: p.kind == "raise")
 
@@ -333,3 +343,4 @@ def island_seeds(u: Unit):
 
 from . import calibreport as _CRc  # noqa: E402
 unit("C04", "calib.ctor")(_CRc.calibration_ctor_unit)      # Calibration.__init__ keeps the seeds / settings it is given (0 included)
+unit("C04", "calib.island_build")(_CRc.build_unit)         # _build executed: island k gets the k-th draw of default_rng(pygmo_seed), 0 is a seed
